@@ -38,6 +38,7 @@ def dispatch (op : String) : Option Handler :=
   | "cmp" => some C09.cmp
   | "cmp3" => some C09.cmp3
   | "dslsort" => some C09.dslsort
+  | "dslsortmv" => some C09.dslsort      -- a map sorted by value: the same law on its values ("v" is no collation flag)
   | "join" => some C13.join
   | "pctidx" => some Verbs.pctidx
   | "perrec" => some Verbs.perrec
